@@ -182,3 +182,101 @@ register("C10", lean=["Khttp.Props.C10"], run=run_c10,
          assumptions=["a gated client: a recv sees at most the current segment (model Sock)", "TcpStream::read = recv(fd, buf, len) (observed through an interposed recv symbol)"],
          explanation="Theorems on the read_request loop model: every recv asks for exactly max - filled (< max buffered), success keeps buffered ++ in-flight = sent, a head of at most max bytes is accepted under every segmentation "
                      "whatever follows, a head not complete within max bytes gives 431, malformed within max gives 400, otherwise wait/EOF. Oracle: first response + close + largest recv length on the real server.")
+
+
+# ------------------------------------------------------------------------------------------------ C05 (connection level)
+CL_VARIANTS = [[], [b"5"], [b" 5 "], [b"05"], [b"+5"], [b"abc"], [b"5, 5"], [b"5", b"5"], [b"5", b"6"], [b"18446744073709551616"], [b""], [b"5 5"], [b"-5"], [b"0x5"]]
+TE_VARIANTS = [[], [b"chunked"], [b"CHUNKED"], [b" chunked\t"], [b"gzip, chunked"], [b"gzip ,\tChunked "], [b"chunked, gzip"], [b"gzip"],
+               [b"gzip", b"chunked"], [b"chunked", b"gzip"], [b"chunked,"], [b""], [b"xchunked"], [b"chunked", b"chunked"]]
+OWS = b" \t"
+
+
+def rfc_framing(cls, tes):
+    """RFC 9112 section 6.3 for a request; returns ('chunked',) | ('fixed', n) | ('empty',) | ('invalid',)"""
+    if tes:
+        toks = [t.strip(OWS) for v in tes for t in v.split(b",")]
+        toks = [t for t in toks if t]
+        if toks and toks[-1].lower() == b"chunked":
+            # a Content-Length next to Transfer-Encoding is overridden — but an INVALID Content-Length still makes the message invalid
+            for v in cls:
+                d = v.strip(OWS)
+                if not (d.isdigit() and d.isascii() and int(d) < 2 ** 64):
+                    return ("invalid",)
+            if len(set(int(v.strip(OWS)) for v in cls)) > 1:
+                return ("invalid",)
+            return ("chunked",)
+        return ("invalid",)
+    if cls:
+        vals = []
+        for v in cls:
+            d = v.strip(OWS)
+            if not (d.isdigit() and d.isascii() and int(d) < 2 ** 64):
+                return ("invalid",)
+            vals.append(int(d))
+        if len(set(vals)) > 1:
+            return ("invalid",)
+        return ("fixed", vals[0])
+    return ("empty",)
+
+
+def c05_cases(seed, tier):
+    r = rng_for(seed, "c05")
+    out = []
+    probe = b"GET /p/1/2 HTTP/1.1\r\n\r\n"
+    payload = b"hello"
+    for cls in CL_VARIANTS:
+        for tes in TE_VARIANTS:
+            orders = [0, 1] if (cls and tes) else [0]
+            for order in orders:
+                if tier == "quick" and r.random() < 0.45:
+                    continue
+                fields = [(r.choice([b"Content-Length", b"content-length", b"CONTENT-LENGTH"]), v) for v in cls]
+                tf = [(r.choice([b"Transfer-Encoding", b"transfer-encoding"]), v) for v in tes]
+                fields = fields + tf if order == 0 else tf + fields
+                if r.random() < 0.5:
+                    fields.insert(r.randrange(len(fields) + 1), (b"Host", b"x"))
+                head = b"POST /echo HTTP/1.1\r\n" + b"".join(k + b":" + (b" " if r.random() < 0.8 else b"") + v + b"\r\n" for k, v in fields) + b"\r\n"
+                fr = rfc_framing(cls, tes)
+                if fr[0] == "chunked":
+                    body = b"5\r\nhello\r\n0\r\n\r\n"; exp = ["R200:0:" + hx(payload), "R200:0:" + hx(b"1,2")]
+                elif fr[0] == "fixed":
+                    body = (payload * 4)[:fr[1]] if fr[1] <= 20 else b"x" * 0
+                    if fr[1] > 20:
+                        continue
+                    exp = ["R200:0:" + hx(body), "R200:0:" + hx(b"1,2")]
+                elif fr[0] == "empty":
+                    body = b""; exp = ["R200:0:e", "R200:0:" + hx(b"1,2")]
+                else:
+                    body = b"hello"; exp = ["R400:1:e", "EOF"]
+                for mode in ("same", "later"):
+                    if mode == "same":
+                        script = "s:%s,r,s:%s,r" % (hx(head + body), hx(probe))
+                    else:
+                        script = "s:%s,%sr,s:%s,r" % (hx(head), ("s:%s," % hx(body)) if body else "", hx(probe))
+                    out.append(("CONN max=4096 script=" + script, exp, fr[0], fields))
+    return out
+
+
+def run_c05(o, ctx, tier, seed, replay=None):
+    t = "thorough" if tier in ("thorough", "search") else "quick"
+    cases = c05_cases(seed, t)
+    if replay is not None:
+        cases = [(replay["case"], replay["expected"].split(","), "?", [])]
+    lines = [c[0] for c in cases]
+    impl = C.run_sharded(ctx["kimpl"], lines, shards=min(C.NCPU, 16))
+    model = C.run_sharded(ctx["kmodel"], lines) if ctx.get("have_model") else None
+    for i, ((c, exp, kind, fields), a) in enumerate(zip(cases, impl)):
+        o.evaluations += 1
+        o.count("rfc=" + kind)
+        if len(fields) >= 2:
+            o.nontrivial.add(c)
+        got, d = transcript(a)
+        if len(o.samples) < 5 and i % 41 == 0:
+            o.samples.append({"case": c[:300], "impl": a[:160], "expected": ",".join(exp)})
+        if model is not None and model[i].split()[:2] != a.split()[:2] and len(o.mismatches) < 20:
+            o.mismatches.append({"case": c, "impl": a[:200], "model": model[i][:200]})
+        if got is None:
+            o.violations.append({"case": c, "impl": a[:200], "why": "scenario crashed"}); continue
+        if got != exp and len(o.violations) < 30:
+            o.violations.append({"case": c, "impl": a[:300], "expected": ",".join(exp),
+                                 "why": "framing fields %s (RFC 9112 6.3: %s): got %s, expected %s" % ([(k.decode(), v.decode("latin1")) for k, v in fields], kind, ",".join(got)[:80], ",".join(exp)[:80])})
